@@ -131,7 +131,10 @@ def arc(k, x1, x2):
 def cylindrical(k, x1, x2):
     """BOCK (Oh et al. 2018): K(x,x') = K_r(kuma(|x|), kuma(|x'|)) * sum_p w_p (a.a')^p, a = x/|x|,
     kuma(r) = 1 - (1 - r^alpha)^beta (the library adds eps=1e-6 inside the bracket)"""
-    r1, r2 = x1.norm(dim=-1, keepdim=True), x2.norm(dim=-1, keepdim=True)
+    # the documented `eps` (1e-6) stands in for coordinates that are exactly 0 when the radius is taken; the direction divides the
+    # un-jittered point by that radius (the centre of the ball gets a = 0: only the p = 0 term, 0^0 = 1)
+    j1, j2 = torch.where(x1 == 0, torch.full_like(x1, k.eps), x1), torch.where(x2 == 0, torch.full_like(x2, k.eps), x2)
+    r1, r2 = j1.norm(dim=-1, keepdim=True), j2.norm(dim=-1, keepdim=True)
     a1, a2 = x1 / r1, x2 / r2
     gram = a1 @ a2.transpose(-1, -2)
     w = k.angular_weights.detach()
